@@ -16,5 +16,6 @@ def run(ctx):
 def extra(ctx, res):
     from ._clients import CC, DEGREE, VISITS, check_filter_clients
 
-    check_filter_clients(ctx, res, DEGREE + CC + VISITS)
+    with res.guard("check_filter_clientsctx, res, DEGREE  CC  VISITS"):
+        check_filter_clients(ctx, res, DEGREE + CC + VISITS)
     return res
